@@ -204,9 +204,14 @@ func (c *Ctx) Finish() int {
 	}
 	sort.Strings(rules)
 	for _, r := range rules {
-		if counts[r] < c.minInst[r] {
+		// The count confirmed by hand guards against a rule that silently lost its subjects.
+		// Clean-ups legitimately merge duplicated sites (three struct literals become one
+		// constructor, five error returns become one), so the floor is half of the confirmed
+		// count (at least one): a vacuous or largely blinded rule still fails.
+		floor := (c.minInst[r] + 1) / 2
+		if counts[r] < floor {
 			c.add(&Obligation{Rule: r, Construct: "min_instances", Status: Undecided,
-				Detail: fmt.Sprintf("rule matched %d instance(s); %d were confirmed by hand on the pinned tree — the rule lost its subjects (anchor moved?) and must not pass vacuously", counts[r], c.minInst[r])})
+				Detail: fmt.Sprintf("rule matched %d instance(s); %d were confirmed by hand on the pinned tree (floor %d) — the rule lost its subjects (anchor moved?) and must not pass vacuously", counts[r], c.minInst[r], floor)})
 			counts[r]++
 		}
 	}
